@@ -2,7 +2,7 @@
    Only statements, each closed by [exact]; proofs live in ClientSync_lemmas.v.
    [verify key message signature] is arbitrary: no cryptographic assumption is used. *)
 From Coq Require Import ZArith List Bool String.
-From GCA Require Import Wrap Bytes CodecSync ClientSync ClientSync_lemmas.
+From GCA Require Import Wrap Bytes CodecSync ClientSync ClientSync_lemmas ClientSyncOverflow.
 Import ListNotations.
 Open Scope Z_scope.
 
@@ -19,6 +19,19 @@ Theorem c10_agree (verify : bytes -> bytes -> bytes -> bool) v sg mykey skey gke
   view_signed verify gkey v ->
   client_recv verify 712 mykey skey gkey now (sync_reply v sg ++ extra) = POk (view_result v).
 Proof. exact (reply_parses verify v sg mykey skey gkey now extra). Qed.
+
+(* FINDING (reply-length-wraps): the size premise of c10_agree is not satisfied by every server
+   state.  With 624 well-formed, correctly signed entries in the authorized-server list the
+   reply has 65608 bytes, the uint16 prefix reads 72 and the client rejects the genuine reply;
+   all other premises of c10_agree hold.  (Reproduced against the real server and client by the
+   syncwire suite, state "reply-over-64k".) *)
+Theorem c10_agree_unbounded_list_refuted :
+  exists verify v sg mykey skey gkey now,
+    sview_wf v /\ List.length sg = 64%nat /\ mykey = sv_key v /\ verify skey (reply_body v) sg = true /\
+    fresh now (sv_time v mod 2^64) = true /\ view_signed verify gkey v /\
+    65536 <= Z.of_nat (List.length (reply_body v ++ sg)) /\
+    client_recv verify 712 mykey skey gkey now (sync_reply v sg) <> POk (view_result v).
+Proof. exact reply_overflow_refuted. Qed.
 
 (* bit i of the bitfield is set iff slot offset+i holds a record (banned slots hold 1) *)
 Theorem c10_bitfield powers i : List.length powers = 4032%nat -> (i < 4032)%nat ->
